@@ -34,11 +34,12 @@ def _triples(rec) -> List[Tuple[str, str, str]]:
     pre = {v["id"]: v for v in rec["pre"]["vehicles"]}
     post = {v["id"]: v for v in rec["post"]["vehicles"]}
     if rec["op"] == "apply":
+        tagk = "probe:" if rec.get("probe") else ""
         for i in rec["instrs"]:
             k = _instr_kind(i)
             vid = i[k]["v"]
             if vid in pre and vid in post:
-                out.append((_act_kind(pre[vid]["act"]), k, _act_kind(post[vid]["act"])))
+                out.append((_act_kind(pre[vid]["act"]), tagk + k, _act_kind(post[vid]["act"])))
     elif rec["op"] == "update":
         for vid, v in pre.items():
             if vid in post:
@@ -175,3 +176,26 @@ def coll_layer(seed: int, n_cases: int) -> Dict[str, Any]:
                 "wall_s": round(time.time() - t0, 2)}
 
     return fw.cached("coll", {"seed": seed, "n": n_cases}, compute)
+
+
+def stack_layer(seed: int, n_cases: int) -> Dict[str, Any]:
+    """instruction stack of whole steps (C09)"""
+
+    def compute() -> Dict[str, Any]:
+        from . import stack
+
+        seeds = [seed * 15485863 + i for i in range(n_cases)]
+        chunks = [c for c in (seeds[i::N_WORKERS] for i in range(N_WORKERS)) if c]
+        t0 = time.time()
+        with ProcessPoolExecutor(max_workers=len(chunks)) as ex:
+            parts = list(ex.map(stack.worker, chunks))
+        shapes = set()
+        findings = []
+        for p in parts:
+            shapes.update(tuple(s) for s in p["shapes"])
+            findings += p["findings"]
+        return {"cases": n_cases, "steps": sum(p["n"] for p in parts), "findings": findings[:40],
+                "n_findings": sum(p["n_findings"] for p in parts), "shapes": sorted(shapes),
+                "sample": next((p["sample"] for p in parts if p["sample"]), None), "wall_s": round(time.time() - t0, 2)}
+
+    return fw.cached("stack", {"seed": seed, "n": n_cases}, compute)
